@@ -47,6 +47,9 @@ pub enum S {
     Dur(i64, u32),
     /// the Timestamp wrapper
     Ts(i64, u32, i32),
+    /// a host type whose Serialize implementation asks `is_human_readable()` (text for formats like JSON, compact
+    /// binary otherwise): kind 0 = std::net::Ipv4Addr, 1 = std::net::SocketAddrV4 (port 8080), 2 = std::net::IpAddr::V4
+    Net(u8, u32),
 }
 
 fn name(i: u8) -> &'static str {
@@ -222,6 +225,15 @@ impl Serialize for AnySer<'_> {
                     None => z.serialize_unit(),
                 }
             }
+            S::Net(kind, bits) => {
+                hit("is_human_readable-sensitive-host-type");
+                let ip = std::net::Ipv4Addr::from(*bits);
+                match kind % 3 {
+                    0 => ip.serialize(z),
+                    1 => std::net::SocketAddrV4::new(ip, 8080).serialize(z),
+                    _ => std::net::IpAddr::V4(ip).serialize(z),
+                }
+            }
             S::Ts(secs, nanos, off) => {
                 hit("Timestamp-wrapper");
                 match ts_to_chrono(*secs, *nanos, *off) {
@@ -290,6 +302,14 @@ pub fn shape(s: &S) -> Result<V, ()> {
                 return Ok(V::Null);
             }
             V::Ts(*secs, *nanos, *off)
+        }
+        // the text form, as serde_json (a human-readable format like this one) receives it
+        S::Net(kind, bits) => {
+            let ip = std::net::Ipv4Addr::from(*bits);
+            V::Str(match kind % 3 {
+                1 => std::net::SocketAddrV4::new(ip, 8080).to_string(),
+                _ => ip.to_string(),
+            })
         }
     })
 }
@@ -517,6 +537,7 @@ fn gen_scalar(u: &mut Chooser) -> S {
         13 => S::Char(*u.pick(&['a', 'é', '𝄞', '\0', '"'])),
         14 => S::Str(gen_string(u)),
         15 => S::Bytes(crate::gen::gen_bytes(u)),
+        _ if u.chance(1, 4) => S::Net(u.below(3) as u8, *u.pick(&[0u32, 0x7f000001, 0xc0a80007, u32::MAX, 0x0a000001])),
         _ => match u.below(4) {
             0 => S::None,
             1 => S::Unit,
@@ -610,7 +631,7 @@ fn gen_json(u: &mut Chooser, depth: usize) -> serde_json::Value {
 
 pub fn run(r: &mut Runner) {
     r.rule = "cases: values of a recursive 'any serde type' (depth <= 5) whose Serialize implementation calls every method of the Serializer interface - all integer widths incl. 128-bit, f32 / f64, char, str, bytes, none / some, unit, unit struct, \
-              the four variant kinds, newtype struct, seq, tuple, tuple struct, maps with keys of every kind including unsupported ones, structs, and the Duration / Timestamp wrappers - with boundary-biased scalars; plus serde_json documents from a JSON generator. \
+              the four variant kinds, newtype struct, seq, tuple, tuple struct, maps with keys of every kind including unsupported ones, structs, the Duration / Timestamp wrappers, and std::net address types (whose Serialize asks is_human_readable) - with boundary-biased scalars; plus serde_json documents from a JSON generator. \
               Oracle: conversion never panics; if it succeeds the result equals the shape model (signed -> int, unsigned -> uint, f32 widened, char/str -> string, bytes -> bytes, none/unit -> null, some/newtype -> inner, unit variant -> its name, \
               seq/tuple -> list, map/struct -> map keyed by key or field name with later duplicates overwriting, data-carrying variants -> single-entry map, wrappers -> the same duration / instant and offset); inputs with no same-shape CEL value (unsupported key kinds, \
               out-of-range 128-bit integers) must fail; Context::add_variable agrees with to_value; for JSON-representable inputs to_value(x).json() == serde_json::to_value(x); every serde_json document round trips. \
